@@ -498,13 +498,12 @@ theorem tpm_iff (env : Prog.Env) (o : AttObj) (h : Bytes) (res : Result) :
       split at hr
       · simp at hr
       next ciRaw hciRaw =>
-        simp only [Prog.run_bind, Prog.run_query] at hr
+        simp only [Prog.run_bind] at hr
         split at hr
         next ci hci =>
           split at hr
           · simp at hr
           next paRaw hpaRaw =>
-            simp only [Prog.run_bind, Prog.run_query] at hr
             split at hr
             next pa hpa =>
               split at hr
@@ -525,8 +524,7 @@ theorem tpm_iff (env : Prog.Env) (o : AttObj) (h : Bytes) (res : Result) :
                       obtain ⟨hcert, hr⟩ := hr
                       split at hr
                       next nameAlg nameVal hname =>
-                        simp only [Prog.run_bind, run_ite, Prog.run_pure, Option.ite_none_left_eq_some,
-                          Prog.run_query] at hr
+                        simp only [run_ite, Prog.run_pure, Option.ite_none_left_eq_some] at hr
                         obtain ⟨hnalg, hr⟩ := hr
                         split at hr
                         next hashId hhid =>
@@ -550,8 +548,8 @@ theorem tpm_iff (env : Prog.Env) (o : AttObj) (h : Bytes) (res : Result) :
                               rw [run_hashIsEqual] at hnameOK
                               rw [run_askBool, C12.algX509_spec] at hsig
                               rw [run_hardwareDetailsOK] at hhw
-                              exact ⟨der, c, rest, ciRaw, ci, paRaw, pa, d, acd, k, pk, paEnc, nameAlg, nameVal,
-                                hashId, ciEnc, (unmarshal_ok_iff _ _ _).1 hc, hciRaw, hci, hpaRaw, hpa,
+                              exact ⟨der, c, rest, _, ciRaw, ci, paRaw, pa, d, acd, k, pk, paEnc, nameAlg, nameVal,
+                                hashId, ciEnc, (unmarshal_ok_iff _ _ _).1 hc, rfl, hciRaw, hci, hpaRaw, hpa,
                                 (attested_iff _ _ _).1 hA, (credKey_iff _ _).1 hK, hpk, hkeq.1, hkeq.2, hmagic, htype,
                                 hextra, hpaEnc, hcert, hname, hnalg, hhid, hnameOK, hciEnc, hsig, hver, hhw, heku,
                                 hca, rfl⟩
@@ -560,8 +558,8 @@ theorem tpm_iff (env : Prog.Env) (o : AttObj) (h : Bytes) (res : Result) :
             · simp at hr
         · simp at hr
     · simp at hr
-  · rintro ⟨der, c, rest, ciRaw, ci, paRaw, pa, d, acd, k, pk, paEnc, nameAlg, nameVal, hashId, ciEnc,
-      hx, hciRaw, hci, hpaRaw, hpa, hA, hK, hpk, hpk1, hpk2, hmagic, htype, hextra, hpaEnc, hcert, hname, hnalg,
+  · rintro ⟨der, c, rest, hashes, ciRaw, ci, paRaw, pa, d, acd, k, pk, paEnc, nameAlg, nameVal, hashId, ciEnc,
+      hx, rfl, hciRaw, hci, hpaRaw, hpa, hA, hK, hpk, hpk1, hpk2, hmagic, htype, hextra, hpaEnc, hcert, hname, hnalg,
       hhid, hnameOK, hciEnc, hsig, hver, hhw, heku, hca, rfl⟩
     have hx' := (unmarshal_ok_iff _ _ _).2 hx
     have hA' := (attested_iff _ _ _).2 hA
@@ -686,7 +684,7 @@ theorem tpm_requirements (env : Prog.Env) (o : AttObj) (h : Bytes) (res : Result
     registered vendor together with non-empty model and version attributes -/
 theorem tpm_hardware_details (env o h res) (hr : Prog.run env (verifyTPM o h) = some res) :
     ∃ der rest exts details, res.x5c = der :: rest ∧ env.answer (.sanView der) = .san exts ∧ Tpm.detailsFromSan exts = some details := by
-  obtain ⟨der, c, rest, _, _, _, _, _, _, _, _, _, _, _, _, _, _, _, _, _, _, _, _, _, _, _, _, _, _, _, _, _, _, _, _, _, _, _,
+  obtain ⟨der, c, rest, _, _, _, _, _, _, _, _, _, _, _, _, _, _, _, _, _, _, _, _, _, _, _, _, _, _, _, _, _, _, _, _, _, _, _, _, _,
     ⟨exts, details, hsan, hdet⟩, _, _, rfl⟩ := (tpm_requirements env o h res hr).body
   exact ⟨der, rest.map (·.1), exts, details, rfl, hsan, hdet⟩
 
@@ -716,7 +714,7 @@ theorem packedSelf_type {env o h res} (hok : PackedSelfOK env o h res) :
 theorem u2f_type {env o h res} (hok : U2FOK env o h res) : res.type = "Unknown" := by
   obtain ⟨der, c, d, acd, alg, crv, x, y, px, py, _, _, _, _, _, rfl⟩ := hok; rfl
 theorem tpm_type {env o h res} (hok : TpmOK env o h res) : res.type = "AttCA" := by
-  obtain ⟨der, c, rest, ciRaw, ci, paRaw, pa, d, acd, k, pk, paEnc, nameAlg, nameVal, hashId, ciEnc, _,
+  obtain ⟨der, c, rest, hashes, ciRaw, ci, paRaw, pa, d, acd, k, pk, paEnc, nameAlg, nameVal, hashId, ciEnc, _, _,
     _, _, _, _, _, _, _, _, _, _, _, _, _, _, _, _, _, _, _, _, _, _, _, _, rfl⟩ := hok
   rfl
 theorem androidKey_type {env o h res} (hok : AndroidKeyOK env o h res) : res.type = "Basic" := by
@@ -769,7 +767,7 @@ theorem trust_path_is_x5c (env : Prog.Env) (o : AttObj) (h : Bytes) (res : Resul
     exact absurd rfl hne
   · obtain ⟨der, c, d, acd, alg, crv, x, y, px, py, hx5, _, _, _, _, rfl⟩ := hok
     exact ⟨_, hx5, rfl⟩
-  · obtain ⟨der, c, rest, ciRaw, ci, paRaw, pa, d, acd, k, pk, paEnc, nameAlg, nameVal, hashId, ciEnc, hx5,
+  · obtain ⟨der, c, rest, hashes, ciRaw, ci, paRaw, pa, d, acd, k, pk, paEnc, nameAlg, nameVal, hashId, ciEnc, hx5, _,
       _, _, _, _, _, _, _, _, _, _, _, _, _, _, _, _, _, _, _, _, _, _, _, _, rfl⟩ := hok
     exact ⟨_, hx5, rfl⟩
   · obtain ⟨der, c, rest, d, acd, k, e, kd, hx5, _, _, _, _, _, _, _, _, _, _, _, _, rfl⟩ := hok
